@@ -7,6 +7,14 @@ EXTENDS Integers, Sequences, FiniteSets, TLC
 (* config files cannot hold a backslash: constants use the name "BS" for it *)
 Ch(c) == IF c = "BS" THEN "\\" ELSE c
 
+\* fragments passed as constants spell backslash, double quote and line breaks by name (cfg files do not unescape strings)
+RECURSIVE Subst(_)
+Subst(f) == IF f = "" THEN ""
+            ELSE IF Len(f) >= 2 /\ SubSeq(f, 1, 2) = "BS" THEN "\\" \o Subst(SubSeq(f, 3, Len(f)))
+            ELSE IF Len(f) >= 2 /\ SubSeq(f, 1, 2) = "DQ" THEN "\"" \o Subst(SubSeq(f, 3, Len(f)))
+            ELSE IF Len(f) >= 2 /\ SubSeq(f, 1, 2) = "NL" THEN "\n" \o Subst(SubSeq(f, 3, Len(f)))
+            ELSE IF Len(f) >= 2 /\ SubSeq(f, 1, 2) = "CR" THEN "\r" \o Subst(SubSeq(f, 3, Len(f)))
+            ELSE SubSeq(f, 1, 1) \o Subst(Tail(f))
 At(s, i) == IF i >= 1 /\ i <= Len(s) THEN SubSeq(s, i, i) ELSE ""
 Slice(s, a, b) == IF a >= b THEN "" ELSE SubSeq(s, a + 1, b)      \* Python s[a:b], 0-based, a <= b <= Len(s)
 Last(sq) == sq[Len(sq)]
